@@ -29,6 +29,9 @@ class Check(ParCheck):
             ('onceord', once_ord, [[(0, 0), (1, 0)], [(0, 0)]]),
             ('multi', multi, [[(1, 0), (1, 0)], [(1, 0)]]),
             ('once1', once_un, [[(1, 0)], [(5, 0)]]),
+            # a later pattern of the same method that would also accept the call does not take over once the single-use value is gone
+            ('once2ov', tup([once_un, term(1, 'some', Pat(mask=255, chain=[seg('ret8', 'al0')]))]), [[(1, 0)], [(1, 0)]]),
+            ('once2ovseq', tup([once_un, term(1, 'each', Pat(mask=255, chain=[seg('ret8', 'al0')]))]), [[(1, 0), (1, 0), (1, 0)]]),
             ('multial', term(1, 'some', Pat(mask=255, chain=[seg('ret7', 'al1')])), [[(1, 0), (1, 0)], [(1, 0)]]),
             ('multieach', term(1, 'each', Pat(mask=255, chain=[seg('ret7', 'once'), seg('ret8', 'al0')])), [[(1, 0), (1, 0)], [(1, 0)]]),
         ]
@@ -135,7 +138,7 @@ class Check(ParCheck):
             if n7 > 1:
                 return f"single-use value handed to {n7} callers"
         flat = [o for t in r['outs'].split('|') for o in t.split(',') if o]
-        if name.startswith(('oncepart2', 'oncepart1x2', 'once2_', 'once3_', 'once4_', 'once2x2', 'once3x2')):   # (ordered patterns reject the extra call as out of order instead)
+        if name.startswith(('oncepart2', 'oncepart1x2', 'once2_', 'once3_', 'once4_', 'once2x2', 'once3x2', 'once2ov')):   # (ordered patterns reject the extra call as out of order instead)
             others = [o for o in flat if o not in ('ret:7', 'ret:9')]
             if any(not o.startswith('err:CannotReturnValueMoreThanOnce') for o in others) or len(others) != len(flat) - 1:
                 return f"a single-use value must go to exactly one request and every other request must panic (CannotReturnValueMoreThanOnce): {flat}"
